@@ -216,7 +216,8 @@ def idw(repo, rep):
     if not I:
         raise AnalysisError("sel_idw: neighbour index list not found")
     # the masking condition: the If that follows the collection loop and tests len(I)
-    masks = [n for n in ast.walk(fi.node) if isinstance(n, ast.If) and n.lineno > loop.lineno and f"len({I})" in unparse(n.test) and n.orelse
+    masks = [n for n in ast.walk(fi.node) if isinstance(n, ast.If) and n.lineno > loop.lineno and n.orelse
+             and getattr(n, "_parent", None) is getattr(loop, "_parent", None)
              and any(isinstance(x, (ast.For, ast.AugAssign)) for o in n.orelse for x in ast.walk(o))]
     if len(masks) != 1:
         raise AnalysisError("sel_idw: masking branch not found")
@@ -258,8 +259,16 @@ def tolerance(repo, rep):
     fi = repo.func(f"{SEL}.sel_nearest")
     loop = [n for n in fi.node.body if isinstance(n, ast.For)][0]
     tests = [n for n in loop.body if isinstance(n, ast.If)]
-    app = [i for i, s in enumerate(loop.body) if isinstance(s, ast.Expr) and "station_ids.append" in unparse(s)]
-    tol = [i for i, s in enumerate(loop.body) if isinstance(s, ast.If) and unparse(s.test).replace(" ", "") == "closest_dist>tolerance"]
+    cid = cdist = None
+    for s in loop.body:
+        if isinstance(s, ast.Assign) and isinstance(s.targets[0], ast.Tuple) and len(s.targets[0].elts) == 2 and isinstance(s.value, ast.Call) \
+                and isinstance(s.value.func, ast.Attribute) and s.value.func.attr == "nearest":
+            cid, cdist = (unparse(e) for e in s.targets[0].elts)
+    if cid is None:
+        raise AnalysisError("sel_nearest: (id, distance) = coords.nearest(...) not found")
+    app = [i for i, s in enumerate(loop.body) if isinstance(s, ast.Expr) and isinstance(s.value, ast.Call) and isinstance(s.value.func, ast.Attribute)
+           and s.value.func.attr == "append" and [unparse(a_) for a_ in s.value.args] == [cid]]
+    tol = [i for i, s in enumerate(loop.body) if isinstance(s, ast.If) and unparse(s.test).replace(" ", "") in (f"{cdist}>tolerance", f"tolerance<{cdist}")]
     if not tol or not app or tol[0] > app[0]:
         rep.fail("R-C14-5", fi.file, loop.lineno, fi.qualname, "tolerance test", "a nearest station farther than the tolerance must raise (or be skipped) BEFORE it is selected")
     else:
@@ -271,13 +280,22 @@ def tolerance(repo, rep):
             rep.fail("R-C14-5", fi.file, s.lineno, fi.qualname, inner[:100], "beyond tolerance the selection must fail (missing='raise') or skip the point (missing='ignore')")
     fi = repo.func(f"{SEL}.Coordinates.nearer")
     t = unparse(fi.node).replace(" ", "")
-    if "np.argsort(dist)" in t and "closest_ids[closest_dist<=tolerance][:max_sites]" in t:
+    srt_ = dsort_ = None
+    for a_ in ast.walk(fi.node):
+        if isinstance(a_, ast.Assign) and isinstance(a_.targets[0], ast.Name):
+            if isinstance(a_.value, ast.Call) and call_name(a_.value).split(".")[-1] == "argsort" and len(a_.value.args) == 1:
+                srt_, dname_ = a_.targets[0].id, unparse(a_.value.args[0])
+    for a_ in ast.walk(fi.node):
+        if isinstance(a_, ast.Assign) and isinstance(a_.targets[0], ast.Name) and srt_ and unparse(a_.value).replace(" ", "") == f"{dname_}[{srt_}]":
+            dsort_ = a_.targets[0].id
+    if srt_ and dsort_ and f"{srt_}[{dsort_}<=tolerance][:max_sites]" in t:
         rep.ok("R-C14-5", f"{fi.file}:{fi.node.lineno} nearer", "argsort by distance, <= tolerance, [:max_sites]", "closest first, within tolerance, at most max_sites")
     else:
         rep.fail("R-C14-5", fi.file, fi.node.lineno, fi.qualname, "neighbour filter", "neighbours = stations sorted by distance, within tolerance (<=), truncated to max_sites")
     fi = repo.func(f"{SEL}.Coordinates.nearest")
     t = unparse(fi.node).replace(" ", "")
-    if "dist.argmin()" in t:
+    if any(isinstance(c_, ast.Call) and isinstance(c_.func, ast.Attribute) and c_.func.attr == "argmin" and not c_.args for c_ in ast.walk(fi.node)) \
+            and not any(isinstance(c_, ast.Call) and isinstance(c_.func, ast.Attribute) and c_.func.attr == "argmax" for c_ in ast.walk(fi.node)):
         rep.ok("R-C14-5", f"{fi.file}:{fi.node.lineno} nearest", "dist.argmin()", "station at minimum distance")
     else:
         rep.fail("R-C14-5", fi.file, fi.node.lineno, fi.qualname, "nearest", "nearest must pick the arg-min of the distance")
